@@ -100,6 +100,7 @@ class Check:
     # ---- TLC -------------------------------------------------------------
     def _tlc(self, specdir, tla, cfg, env_extra, workers, metadir, timeout, extra=()):
         env = dict(os.environ)
+        env.setdefault("JAVA_TOOL_OPTIONS", "-Xss512m")   # deep RECURSIVE operators on long traces
         env.update(env_extra)
         cmd = ["tlc", "-workers", str(workers), "-metadir", metadir, "-config", cfg] + list(extra) + [tla]
         try:
